@@ -588,6 +588,61 @@ theorem map_itemEntry_itemOf (l : List MsEntry) (hok : ∀ x ∈ l, EntryOk x) :
     exact itemEntry_itemOf e (hok e he)
   rw [this, List.map_id]
 
+/-! ### An interrupted `chgstatus` (C16) -/
+
+/-- Word by word, the result is the old word or the new one. -/
+def OldOrNew : List Nat → List Nat → List Nat → Prop
+  | [], [], [] => True
+  | r :: rs, o :: os, n :: ns => (r = o ∨ r = n) ∧ OldOrNew rs os ns
+  | _, _, _ => False
+
+theorem chgScan_length (st : Nat) : ∀ (ws ids : List Nat), (chgScan st ids ws).length = ws.length := by
+  intro ws
+  induction ws with
+  | nil => intro ids; simp [chgScan]
+  | cons m ms ih =>
+    intro ids
+    simp only [chgScan]
+    split
+    · rfl
+    · split <;> simp [ih]
+
+theorem oldOrNew_old : ∀ (l n : List Nat), n.length = l.length → OldOrNew l l n := by
+  intro l
+  induction l with
+  | nil => intro n h; cases n <;> simp_all [OldOrNew]
+  | cons a t ih =>
+    intro n h
+    cases n with
+    | nil => simp at h
+    | cons b u => exact ⟨.inl rfl, ih u (by simpa using h)⟩
+
+/-- **A `chgstatus` killed after any number of its stores** leaves metadata words each of which is the
+    word before the command or the word after it (never a third value, never a shifted or torn one). -/
+theorem chgScanK_oldOrNew (st : Nat) : ∀ (ws : List Nat) (k : Nat) (ids : List Nat),
+    OldOrNew (chgScanK st k ids ws) ws (chgScan st ids ws) := by
+  intro ws
+  induction ws with
+  | nil => intro k ids; simp [chgScanK, chgScan, OldOrNew]
+  | cons m ms ih =>
+    intro k ids
+    simp only [chgScanK, chgScan]
+    by_cases h0 : wStatus m = 0
+    · simp only [h0, ↓reduceIte]
+      exact oldOrNew_old (m :: ms) (m :: ms) rfl
+    · simp only [h0, ↓reduceIte]
+      by_cases hl : wStatus m > 1 ∧ ids.contains (wId m) = true
+      · simp only [hl, and_self, ↓reduceIte]
+        by_cases hs : wStatus m = st
+        · simp only [hs, ↓reduceIte]
+          exact ⟨.inl rfl, ih k _⟩
+        · simp only [hs, ↓reduceIte]
+          cases k with
+          | zero => exact ⟨.inl rfl, oldOrNew_old ms _ (chgScan_length st ms _)⟩
+          | succ k => exact ⟨.inr rfl, ih k _⟩
+      · simp only [hl, ↓reduceIte]
+        exact ⟨.inl rfl, ih k _⟩
+
 /-! ### An interrupted `append` (C16) -/
 
 /-- **What a reader sees after the first `k` stores of an `append`** on a canonical file: the OLD
